@@ -37,6 +37,8 @@ def run(ctx, rep):
     beforenm(rep, prog)
     n_roles = cm.role_consistency(rep, prog)
     rep.floor("key-role call edges", n_roles, 40)
+    _nw = cm.read_after_wipe(rep, ctx.prog("full"), ("classic::crypto_kx", "kx::", "scalarmult_curve25519::", "classic::crypto_core"))
+    rep.note("WIPE-ORDER: %d wipe(s) of local buffers checked in the key-exchange / scalarmult code" % _nw)
 
 
 def scalarmult(rep, prog):
